@@ -1,0 +1,12 @@
+//go:build verif
+
+package description
+
+// Contracts checked by /verif/govc (see /verif/DESIGN.md). Comment-only file.
+
+// Callers dereference the result whenever err == nil (client.doSetup, C12 / C20).
+//@ func (m Media) URL
+//@   opt safety-tag=C12
+//@   ensures[C12] err == nil ==> ret != nil
+//@   ensures[C12] err != nil ==> ret == nil
+//@   modifies fresh
